@@ -49,7 +49,11 @@ def check(prog: Program, tier: str) -> Result:
     _c05._r5_6(prog, _tmp)
     res.adopt(_tmp, {"R5.6"}, "R7.7", "safe mode / preserve only protect the surface if no rule result is replayed from a memo that ignores the preserve set")
     _r7_8(prog, res)
-    res.floors.update({"R7.1": 14, "R7.2": 8, "R7.3": 4, "R7.4": 5, "R7.8": 2})
+    from . import c16 as _c16
+    _tmp16 = Result("C16", "", "")
+    _c16._r16_23(prog, _tmp16)
+    res.adopt(_tmp16, {"R16.23"}, "R7.9", "safe mode protects a module-level `_` by asking for '_' in preserve; any OTHER name has_side_effect treats as throw-away is deleted in safe mode")
+    res.floors.update({"R7.1": 14, "R7.2": 8, "R7.3": 4, "R7.4": 5, "R7.8": 2, "R7.9": 2})
     res.analysed.update(stats)
     return res
 
